@@ -3,18 +3,22 @@ EXTENDS InvertExact, Json
 Pre(s, d) == [i \in 1..d |-> s[i]]
 Se1(d) == [k |-> "se", ja |-> 0, m |-> Pre(<<1, 1>>, d)]
 Rq1(d) == [k |-> "rq", ja |-> 0, kk |-> 1, c |-> Pre(<<<<1, 1>>, <<1, 1>>>>, d)]
-Pos2 == { << <<0>>, <<1>> >>, << <<0, 1>>, <<1, 0>> >> }
+CONSTANT Deep        \* FALSE: the quick family; TRUE (thorough tier): more positions, model matrices and a second data vector
+Pos2 == { << <<0>>, <<1>> >>, << <<0, 1>>, <<1, 0>> >> } \cup (IF Deep THEN { << <<0, 0>>, <<1, 1>> >> } ELSE {})
 Pos3 == { << <<0>>, <<1>>, <<2>> >> }
 As2 == { << <<1, 2>> >>, << <<1, 0>>, <<1, 1>> >>, << <<1, 2>>, <<2, 4>> >>, << <<1, 0>>, <<0, 1>>, <<1, 1>> >> }      \* under-, exactly (one rank-deficient), over-determined
+As2Deep == { << <<2, 1>> >>, << <<1, -1>>, <<0, 1>> >>, << <<0, 1>>, <<1, 0>>, <<1, -1>> >> }
 As3 == { << <<1, 0, 1>>, <<0, 1, -1>> >>, << <<1, 1, 1>> >> }
 Ys == <<1, -2, 3>>
+YSets == {Ys} \cup (IF Deep THEN { <<0, 3, -1>> } ELSE {})
 S2s(n) == { Pre(<<<<1, 4>>, <<1, 4>>, <<1, 4>>>>, n), Pre(<<<<1, 1>>, <<1, 4>>, <<1, 1>>>>, n) }
 Means(d) == { [k |-> "const", th |-> <<2>>], [k |-> "lin", th |-> Pre(<<1, 2, -1>>, 1 + d)] }
 VARIABLES pb, cx, out
 Rep == 256
 ScaleLog2 == 0 - 12
-Init == /\ \/ \E ps \in Pos2, A \in As2 : \E kn \in {Se1(Len(ps[1])), Rq1(Len(ps[1]))}, mf \in Means(Len(ps[1])), s2 \in S2s(Len(A)) :
-                 pb = [pos |-> ps, A |-> A, y |-> Pre(Ys, Len(A)), s2 |-> s2, kern |-> kn, mean |-> mf]
+Init == /\ \/ \E ps \in Pos2, A \in As2 \cup (IF Deep THEN As2Deep ELSE {}) :
+                   \E kn \in {Se1(Len(ps[1])), Rq1(Len(ps[1]))}, mf \in Means(Len(ps[1])), s2 \in S2s(Len(A)), yy \in YSets :
+                 pb = [pos |-> ps, A |-> A, y |-> Pre(yy, Len(A)), s2 |-> s2, kern |-> kn, mean |-> mf]
            \/ \E ps \in Pos3, A \in As3 : \E kn \in {Se1(1), Rq1(1)}, mf \in Means(1), s2 \in S2s(Len(A)) :
                  pb = [pos |-> ps, A |-> A, y |-> Pre(Ys, Len(A)), s2 |-> s2, kern |-> kn, mean |-> mf]
         /\ cx = InvContext(pb) /\ out = 0
